@@ -23,8 +23,8 @@ type Signature struct {
 	ShapeL  string   `json:"shape_l,omitempty"`
 	ShapeR  string   `json:"shape_r,omitempty"`
 	Flags   []string `json:"flags,omitempty"`
-	Symptom string   `json:"symptom"`           // mismatch | panic | timeout | crash | unexpected-error | unexpected-value | anomaly | race | rejected
-	Frame   string   `json:"frame,omitempty"`   // first frame inside github.com/arr-ai/arrai (panics)
+	Symptom string   `json:"symptom"`             // mismatch | panic | timeout | crash | unexpected-error | unexpected-value | anomaly | race | rejected
+	Frame   string   `json:"frame,omitempty"`     // first frame inside github.com/arr-ai/arrai (panics)
 	Msg     string   `json:"msg_class,omitempty"` // message class (panics) / diff class (mismatches)
 	Step    string   `json:"step_kind,omitempty"`
 }
